@@ -171,3 +171,166 @@ Theorem C16_ecef_parity : forall lat lon alt,
   lla_to_ecef_r2 (- lat) lon alt = - lla_to_ecef_r2 lat lon alt.
 Proof. exact ecef_parity. Qed.
 Print Assumptions C16_ecef_parity.
+
+(** ---- extension: statements formerly checked numerically only (Proofs/C16ExtProofs.v) ---- *)
+From PV Require Import Proofs.C16ExtProofs.
+
+(** local NED coordinates of the metre-perturbed point, relative to the unperturbed one: the Jacobian
+    with respect to the (north, east, down) displacement at 0 is the identity. *)
+Theorem C16_lla_to_ned_first_order : forall lat lon alt, -90 < lat < 90 -> -6000000 < alt ->
+  let ned0 d0 d1 d2 := lla_to_ned_n0 (perturb_lla_lat lat lon alt d0 d1 d2) (perturb_lla_lon lat lon alt d0 d1 d2)
+                         (perturb_lla_alt lat lon alt d0 d1 d2) lat lon alt in
+  let ned1 d0 d1 d2 := lla_to_ned_n1 (perturb_lla_lat lat lon alt d0 d1 d2) (perturb_lla_lon lat lon alt d0 d1 d2)
+                         (perturb_lla_alt lat lon alt d0 d1 d2) lat lon alt in
+  let ned2 d0 d1 d2 := lla_to_ned_n2 (perturb_lla_lat lat lon alt d0 d1 d2) (perturb_lla_lon lat lon alt d0 d1 d2)
+                         (perturb_lla_alt lat lon alt d0 d1 d2) lat lon alt in
+  (is_derive (fun d => ned0 d 0 0) 0 1 /\ is_derive (fun d => ned1 d 0 0) 0 0 /\ is_derive (fun d => ned2 d 0 0) 0 0) /\
+  (is_derive (fun d => ned0 0 d 0) 0 0 /\ is_derive (fun d => ned1 0 d 0) 0 1 /\ is_derive (fun d => ned2 0 d 0) 0 0) /\
+  (is_derive (fun d => ned0 0 0 d) 0 0 /\ is_derive (fun d => ned1 0 0 d) 0 0 /\ is_derive (fun d => ned2 0 0 d) 0 1).
+Proof. exact lla_to_ned_first_order. Qed.
+Print Assumptions C16_lla_to_ned_first_order.
+
+(** curvature matrix = rotation of the NED frame under displacement.  C(s) := mat_en_from_ll at
+    perturb_lla(lla, s·e) for ANY direction e = (e0,e1,e2) in NED metres (north: e = (1,0,0), east: (0,1,0),
+    down: (0,0,1) gives no rotation).  rel r c s = (row r of C(0)^T) · (column c of C(s)), so the nine
+    derivatives below are the entries of d/ds [C(0)^T C(s)] at s = 0, and the right-hand sides are the
+    entries of the skew matrix [(F e) x] = [[0,-w2,w1],[w2,0,-w0],[-w1,w0,0]], w = F e, with
+    F = curvature_matrix.  (Convention confirmed on the code: tools/props/C16.py, dm[2,1], dm[0,2], dm[1,0].) *)
+Theorem C16_curvature_is_frame_rotation : forall lat lon alt e0 e1 e2, -90 < lat < 90 -> -6000000 < alt ->
+  let lat' s := perturb_lla_lat lat lon alt (s * e0) (s * e1) (s * e2) in
+  let lon' s := perturb_lla_lon lat lon alt (s * e0) (s * e1) (s * e2) in
+  let rel (r0 r1 r2 : R) (c0 c1 c2 : R -> R -> R) :=
+    fun s => r0 * c0 (lat' s) (lon' s) + r1 * c1 (lat' s) (lon' s) + r2 * c2 (lat' s) (lon' s) in
+  let w0 := curvature_matrix_F00 lat alt * e0 + curvature_matrix_F01 lat alt * e1 + curvature_matrix_F02 lat alt * e2 in
+  let w1 := curvature_matrix_F10 lat alt * e0 + curvature_matrix_F11 lat alt * e1 + curvature_matrix_F12 lat alt * e2 in
+  let w2 := curvature_matrix_F20 lat alt * e0 + curvature_matrix_F21 lat alt * e1 + curvature_matrix_F22 lat alt * e2 in
+  let n0 := mat_en_from_ll_m00 lat lon in let n1 := mat_en_from_ll_m10 lat lon in let n2 := mat_en_from_ll_m20 lat lon in
+  let a0 := mat_en_from_ll_m01 lat lon in let a1 := mat_en_from_ll_m11 lat lon in let a2 := mat_en_from_ll_m21 lat lon in
+  let d0 := mat_en_from_ll_m02 lat lon in let d1 := mat_en_from_ll_m12 lat lon in let d2 := mat_en_from_ll_m22 lat lon in
+  (is_derive (rel n0 n1 n2 mat_en_from_ll_m00 mat_en_from_ll_m10 mat_en_from_ll_m20) 0 0 /\
+   is_derive (rel n0 n1 n2 mat_en_from_ll_m01 mat_en_from_ll_m11 mat_en_from_ll_m21) 0 (- w2) /\
+   is_derive (rel n0 n1 n2 mat_en_from_ll_m02 mat_en_from_ll_m12 mat_en_from_ll_m22) 0 w1) /\
+  (is_derive (rel a0 a1 a2 mat_en_from_ll_m00 mat_en_from_ll_m10 mat_en_from_ll_m20) 0 w2 /\
+   is_derive (rel a0 a1 a2 mat_en_from_ll_m01 mat_en_from_ll_m11 mat_en_from_ll_m21) 0 0 /\
+   is_derive (rel a0 a1 a2 mat_en_from_ll_m02 mat_en_from_ll_m12 mat_en_from_ll_m22) 0 (- w0)) /\
+  (is_derive (rel d0 d1 d2 mat_en_from_ll_m00 mat_en_from_ll_m10 mat_en_from_ll_m20) 0 (- w1) /\
+   is_derive (rel d0 d1 d2 mat_en_from_ll_m01 mat_en_from_ll_m11 mat_en_from_ll_m21) 0 w0 /\
+   is_derive (rel d0 d1 d2 mat_en_from_ll_m02 mat_en_from_ll_m12 mat_en_from_ll_m22) 0 0).
+Proof. intros lat lon alt e0 e1 e2. exact (curvature_is_frame_rotation lat lon alt e0 e1 e2). Qed.
+Print Assumptions C16_curvature_is_frame_rotation.
+
+(** the generated curvature matrix in terms of the generated principal radii:
+    F = [[0, 1/Re, 0], [-1/Rn, 0, 0], [0, -tan(lat)/Re, 0]]  (Rp = Re cos lat). *)
+Theorem C16_curvature_entries : forall lat alt, -90 < lat < 90 ->
+  curvature_matrix_F00 lat alt = 0 /\ curvature_matrix_F01 lat alt = / principal_radii_re lat alt /\
+  curvature_matrix_F02 lat alt = 0 /\
+  curvature_matrix_F10 lat alt = - / principal_radii_rn lat alt /\ curvature_matrix_F11 lat alt = 0 /\
+  curvature_matrix_F12 lat alt = 0 /\
+  curvature_matrix_F20 lat alt = 0 /\
+  curvature_matrix_F21 lat alt = - (sin (lat * d2r) / principal_radii_rp lat alt) /\
+  curvature_matrix_F22 lat alt = 0.
+Proof. exact curvature_entries. Qed.
+Print Assumptions C16_curvature_entries.
+
+(** ecef_to_lla (Olson).  Generated intermediates: ecef_to_lla__4 = c2 = w²/r² (branch selector, > 0.3:
+    arcsin branch), ecef_to_lla__10 = the series guess of sin|lat| (arcsin branch), ecef_to_lla__24 = the
+    series guess of cos lat (arccos branch), __19/__33 = m (tangential residual), __20/__34 = p = m/(Rn+f)
+    (the latitude correction).
+    Structural statement: the last step is a Newton step whose fixed point is the exact answer — if the
+    guess is exact at the image (x,y,z) of a geodetic triple, the residual is purely along the normal,
+    m = p = 0, and ecef_to_lla returns exactly that triple (all four generated paths, z < 0 mirrored).
+    NOT proved: that the series guess is accurate for a general point (Olson's error analysis), hence the
+    quantitative round-trip error off the equator/axis — that part stays a numerical check. *)
+Theorem C16_olson_newton_step : forall lat lon alt,
+  -90 < lat < 90 -> -180 < lon <= 180 -> -6000000 < alt ->
+  let x := lla_to_ecef_r0 lat lon alt in let y := lla_to_ecef_r1 lat lon alt in
+  let z := lla_to_ecef_r2 lat lon alt in
+  (ecef_to_lla__4 x y z > 3 / 10 -> ecef_to_lla__10 x y z = sin (Rabs lat * d2r)) ->
+  (~ ecef_to_lla__4 x y z > 3 / 10 -> ecef_to_lla__24 x y z = cos (lat * d2r)) ->
+  ((ecef_to_lla__4 x y z > 3 / 10 -> ecef_to_lla__19 x y z = 0 /\ ecef_to_lla__20 x y z = 0) /\
+   (~ ecef_to_lla__4 x y z > 3 / 10 -> ecef_to_lla__33 x y z = 0 /\ ecef_to_lla__34 x y z = 0)) /\
+  ecef_to_lla_lat x y z = lat /\ ecef_to_lla_lon x y z = lon /\ ecef_to_lla_alt x y z = alt.
+Proof. exact olson_newton_step. Qed.
+Print Assumptions C16_olson_newton_step.
+
+(** The final step read against Spec/Ellipsoid.v, for ANY point and ANY guess latitude phi (no exactness
+    assumed): (u,v) is the residual of the forward map (altitude 0) at the guess in the meridian plane, f / m
+    its normal / tangential components, the latitude correction is the Newton step p = m / (R_meridian(phi) + f)
+    — the Jacobian of the forward map along the meridian is (R_meridian + h)·tangent, C16_ecef_partial_lat —
+    and the altitude is f + m p / 2.  First the arcsin branch (guess of the sine), then the arccos branch. *)
+Theorem C16_olson_step_is_newton : forall x y z phi,
+  let u := ecef_to_lla__0 x y - R_transverse A_ E2_ phi * cos phi in
+  let v := Rabs z - (1 - E2_) * R_transverse A_ E2_ phi * sin phi in
+  let f := cos phi * u + sin phi * v in
+  let m := cos phi * v - sin phi * u in
+  let p := m / (R_meridian A_ E2_ phi + f) in
+  (0 <= cos phi -> ecef_to_lla__10 x y z = sin phi ->
+   ecef_to_lla__18 x y z = f /\ ecef_to_lla__19 x y z = m /\ ecef_to_lla__20 x y z = p /\
+   ecef_to_lla__21 x y z = asin (sin phi) + p /\ ecef_to_lla__23 x y z = f + 1 / 2 * m * p) /\
+  (0 <= sin phi -> ecef_to_lla__24 x y z = cos phi ->
+   ecef_to_lla__32 x y z = f /\ ecef_to_lla__33 x y z = m /\ ecef_to_lla__34 x y z = p /\
+   ecef_to_lla__35 x y z = acos (cos phi) + p /\ ecef_to_lla__36 x y z = f + 1 / 2 * m * p).
+Proof.
+  intros x y z phi. split; [exact (olson_step_is_newton_sin x y z phi)|exact (olson_step_is_newton_cos x y z phi)].
+Qed.
+Print Assumptions C16_olson_step_is_newton.
+
+(** non-vacuity: on the equator the guess hypotheses of C16_olson_newton_step hold (guess = 0 = sin 0). *)
+Example C16_olson_newton_step_nonvacuous :
+  let x := lla_to_ecef_r0 0 30 100 in let y := lla_to_ecef_r1 0 30 100 in
+  let z := lla_to_ecef_r2 0 30 100 in
+  (ecef_to_lla__4 x y z > 3 / 10 -> ecef_to_lla__10 x y z = sin (Rabs 0 * d2r)) /\
+  (~ ecef_to_lla__4 x y z > 3 / 10 -> ecef_to_lla__24 x y z = cos (0 * d2r)).
+Proof.
+  exact (olson_guess_exact_on_equator 30 100 (proj1 (proj2 ext_domain_instance))
+           (proj2 (proj2 (proj2 ext_domain_instance)))).
+Qed.
+Print Assumptions C16_olson_newton_step_nonvacuous.
+
+(** longitude: every path returns arctan2(y, x) in degrees; round trip for every point off the axis. *)
+Theorem C16_ecef_to_lla_lon_is_atan2 : forall x y z, ecef_to_lla_lon x y z = atan2 y x * r2d.
+Proof. exact ecef_to_lla_lon_is_atan2. Qed.
+Print Assumptions C16_ecef_to_lla_lon_is_atan2.
+
+Theorem C16_lon_round_trip : forall lat lon alt z',
+  -90 < lat < 90 -> -180 < lon <= 180 -> -6000000 < alt ->
+  ecef_to_lla_lon (lla_to_ecef_r0 lat lon alt) (lla_to_ecef_r1 lat lon alt) z' = lon.
+Proof. exact lon_round_trip. Qed.
+Print Assumptions C16_lon_round_trip.
+
+(** exact inverse on the equatorial plane (every point off the axis) ... *)
+Theorem C16_ecef_to_lla_equatorial_plane : forall x y, 0 < x * x + y * y ->
+  ecef_to_lla_lat x y 0 = 0 /\ ecef_to_lla_lon x y 0 = atan2 y x * r2d /\
+  ecef_to_lla_alt x y 0 = sqrt (x * x + y * y) - A_.
+Proof. exact ecef_to_lla_equatorial_plane. Qed.
+Print Assumptions C16_ecef_to_lla_equatorial_plane.
+
+Theorem C16_equator_round_trip : forall lon alt, -180 < lon <= 180 -> - A_ < alt ->
+  let x := lla_to_ecef_r0 0 lon alt in let y := lla_to_ecef_r1 0 lon alt in
+  let z := lla_to_ecef_r2 0 lon alt in
+  ecef_to_lla_lat x y z = 0 /\ ecef_to_lla_lon x y z = lon /\ ecef_to_lla_alt x y z = alt.
+Proof. exact equator_round_trip. Qed.
+Print Assumptions C16_equator_round_trip.
+
+(** ... and on the polar axis: latitude ±90, altitude |z| - b (b = semi-minor axis), longitude reported as 0. *)
+Theorem C16_ecef_to_lla_polar_axis : forall z, z <> 0 ->
+  ecef_to_lla_lat 0 0 z = (if Rlt_dec z 0 then -90 else 90) /\ ecef_to_lla_lon 0 0 z = 0 /\
+  ecef_to_lla_alt 0 0 z = Rabs z - sqrt (b2 A_ E2_).
+Proof. exact ecef_to_lla_polar_axis. Qed.
+Print Assumptions C16_ecef_to_lla_polar_axis.
+
+Theorem C16_pole_round_trip : forall lon alt, -6000000 < alt ->
+  (let x := lla_to_ecef_r0 90 lon alt in let y := lla_to_ecef_r1 90 lon alt in
+   let z := lla_to_ecef_r2 90 lon alt in
+   ecef_to_lla_lat x y z = 90 /\ ecef_to_lla_alt x y z = alt) /\
+  (let x := lla_to_ecef_r0 (-90) lon alt in let y := lla_to_ecef_r1 (-90) lon alt in
+   let z := lla_to_ecef_r2 (-90) lon alt in
+   ecef_to_lla_lat x y z = -90 /\ ecef_to_lla_alt x y z = alt).
+Proof. exact pole_round_trip. Qed.
+Print Assumptions C16_pole_round_trip.
+
+(** non-vacuity of the domain hypotheses used above (lat 45, lon 30, alt 100; the point (3,4,0); z = 7). *)
+Example C16_ext_domain_nonvacuous : -90 < 45 < 90 /\ -180 < 30 <= 180 /\ -6000000 < 100 /\ - A_ < 100.
+Proof. exact ext_domain_instance. Qed.
+Example C16_ext_plane_nonvacuous : 0 < 3 * 3 + 4 * 4 /\ (7 : R) <> 0.
+Proof. exact ext_plane_instance. Qed.
